@@ -5,7 +5,7 @@ every (operator x supported value type) cell."""
 import ast
 import re
 
-from ..core import norm, walk_no_nested, calls_in, call_name, try_const, assigned_values, names_in, dict_items
+from ..core import last_name, norm, walk_no_nested, calls_in, call_name, try_const, assigned_values, names_in, dict_items
 
 D = "ppci/codegen/irdag.py"
 IR = "ppci/ir.py"
@@ -79,6 +79,7 @@ def run(ctx):
         if c._module.rel != IR or c.name in skip:
             continue
         ctx.ob("C29.R4", D + ":SelectionGraphBuilder", "ir.%s is dispatched to a do_* handler" % c.name, c.name in handled, construct="handler:" + c.name)
+    _split_block(ctx)
     late_binding_rule(ctx, "C29.R5", ("ppci/codegen/", "ppci/arch/", "ppci/binutils/", "ppci/irutils/", "ppci/opt/", "ppci/ir.py", "ppci/api.py"))
     # ---- R3 ----
     dump = ctx.isa()
@@ -129,3 +130,42 @@ def grammar_cells(ctx, dump, arch, rid, narrow_arith=True):
             else:
                 ctx.ob(rid, "grammar:%s" % arch, "%s has a rule in %s (type %s has REG/LDR/STR rules, so values of this type reach the selector)" % (term, arch, t), False, construct="cell:%s:%s" % (arch, term),
                        detail="no pattern with root %s" % term)
+
+
+def _split_block(ctx):
+    """R6: blocks longer than 200 instructions are split before selection; the phis of ALL successors - the block
+    itself included, when it loops to itself - must name the new second half as their predecessor"""
+    B = "ppci/irutils/builder.py"
+    ctx.rule("C29.R6", "split_block: every phi of every successor of the split block (including the block itself for a self-loop) moves its incoming edge from the block to the new second half; the first half jumps to the second", floor=4)
+    sb = ctx.fn(B, "split_block")
+    site = B + ":split_block"
+    blk = sb.args.args[0].arg
+    coll = [l for l in ast.walk(sb) if isinstance(l, (ast.For, ast.comprehension)) and norm(l.iter) == blk + ".successors"]
+    ok = False
+    detail = ""
+    if len(coll) == 1:
+        c = coll[0]
+        if isinstance(c, ast.For):
+            filt = [x for x in ast.walk(c) if isinstance(x, (ast.If, ast.Continue, ast.Break))]
+        else:
+            comp = c._parent
+            filt = [i for g in comp.generators for i in g.ifs]
+        ok = not filt
+        detail = "; ".join(" ".join(norm(getattr(f, "test", f)).split())[:60] for f in filt)
+    ctx.ob("C29.R6", site, "the phis of every successor are collected, without exception (a block that is its own successor has its back edge leave from the second half too)", ok, construct="all-successor-phis", detail=detail)
+    upd = [l for l in sb.body if isinstance(l, ast.For) and any(isinstance(x, ast.Call) and last_name(x) == "set_incoming" for x in ast.walk(l))]
+    ok = False
+    if upd:
+        l = upd[0]
+        gv = [n for n in l.body if isinstance(n, ast.Assign) and isinstance(n.value, ast.Call) and last_name(n.value) == "get_value" and norm(n.value.args[0]) == blk]
+        dl = [x for x in ast.walk(l) if isinstance(x, ast.Call) and last_name(x) == "del_incoming" and norm(x.args[0]) == blk]
+        si = [x for x in ast.walk(l) if isinstance(x, ast.Call) and last_name(x) == "set_incoming"]
+        ok = len(gv) == 1 and len(dl) == 1 and len(si) == 1 and norm(si[0].args[1]) == norm(gv[0].targets[0]) and norm(si[0].args[0]) != blk and not any(isinstance(x, (ast.If, ast.Continue)) for x in ast.walk(l))
+    ctx.ob("C29.R6", site, "each collected phi keeps its value and takes it from the new block instead of the old one", ok, construct="phi-retargeted")
+    mv = [n for n in ast.walk(sb) if isinstance(n, ast.Assign) and norm(n.targets[0]) == "instruction.block"]
+    ctx.ob("C29.R6", site, "the moved instructions belong to the new block", bool(mv), construct="instructions-moved")
+    jm = [c for c in ast.walk(sb) if isinstance(c, ast.Call) and norm(c.func) == "ir.Jump"]
+    ok = len(jm) == 1 and any(isinstance(c, ast.Call) and norm(c.func) == blk + ".add_instruction" and any(x is jm[0] for x in ast.walk(c)) for c in ast.walk(sb))
+    ctx.ob("C29.R6", site, "the first half ends in a jump to the second half", ok, construct="jump-to-second-half")
+    chk = [n for n in ast.walk(sb) if isinstance(n, ast.Assert) and "is_phi" in norm(n.test)]
+    ctx.ob("C29.R6", site, "phis never move into the second half", bool(chk), construct="no-phi-in-rest")
